@@ -1,6 +1,7 @@
 package main
 
 import (
+	"os"
 	"encoding/base64"
 	"encoding/json"
 	"fmt"
@@ -184,6 +185,7 @@ func hostileCmd(out *cq.Out, seed uint64, tier string) {
 				body, _ = json.Marshal(obj)
 			}
 			out.Count("membership_answers", 1)
+			os.WriteFile(out.Dir+"/current_input.json", body, 0644)
 			var verdict, decoded bool
 			var mr *protocol.MembershipResult
 			class, site, msg := guarded(func() {
@@ -223,6 +225,7 @@ func hostileCmd(out *cq.Out, seed uint64, tier string) {
 			how := strings.Join(hows, "; ")
 			body, _ := json.Marshal(obj)
 			out.Count("incremental_answers", 1)
+			os.WriteFile(out.Dir+"/current_input.json", body, 0644)
 			var decoded bool
 			class, site, msg := guarded(func() {
 				var ir *protocol.IncrementalResponse
@@ -275,6 +278,7 @@ func hostileCmd(out *cq.Out, seed uint64, tier string) {
 		}
 		srv.Close()
 	}
+	os.Remove(out.Dir + "/current_input.json")
 	out.Sample(map[string]interface{}{"events": n, "rounds": rounds, "client_bodies": len(bodies)})
 	r.close()
 }
